@@ -331,11 +331,9 @@ impl ExpansionPiece {
         }
     }
 
-    const fn len(&self) -> usize {
-        match self {
-            Self::Unsplittable(s) => s.len(),
-            Self::Splittable(s) => s.len(),
-        }
+    /// Length in characters (what `${#v}` and `${v:o:l}` count), not bytes.
+    fn len(&self) -> usize {
+        self.as_str().chars().count()
     }
 
     fn make_unsplittable(self) -> Self {
@@ -1373,23 +1371,37 @@ impl<'a, SE: extensions::ShellExtensions> WordExpander<'a, SE> {
                     // If the offset is still negative, then we need to yield an empty slice.
                     // We force the offset to the end of the array.
                     if expanded_offset < 0 {
-                        expanded_offset = expanded_parameter_len;
+                        expanded_offset = expanded_parameter_len + 1;
                     }
                 }
 
                 // Make sure the offset is within the bounds of the item.
+                let offset_out_of_range = expanded_offset > expanded_parameter_len;
                 let expanded_offset = min(expanded_offset, expanded_parameter_len);
 
                 let end_offset = if let Some(length) = length {
-                    let mut expanded_length = length.eval(self.shell, self.params, false).await?;
+                    let expanded_length = length.eval(self.shell, self.params, false).await?;
                     if expanded_length < 0 {
-                        expanded_length += expanded_parameter_len;
+                        // A negative length is an offset from the end of the string; it must not
+                        // lie before the start offset, and it is not allowed for arrays. An
+                        // offset at or past the end yields nothing before the length matters.
+                        let end = expanded_parameter_len + expanded_length;
+                        if !expanded_parameter.from_array && offset_out_of_range {
+                            expanded_offset
+                        } else if expanded_parameter.from_array || end < expanded_offset {
+                            return Err(error::ErrorKind::CheckedExpansionError(std::format!(
+                                "{expanded_length}: substring expression < 0"
+                            ))
+                            .into());
+                        } else {
+                            end
+                        }
+                    } else {
+                        min(
+                            expanded_offset.saturating_add(expanded_length),
+                            expanded_parameter_len,
+                        )
                     }
-
-                    let expanded_length =
-                        min(expanded_length, expanded_parameter_len - expanded_offset);
-
-                    expanded_offset + expanded_length
                 } else {
                     expanded_parameter_len
                 };
